@@ -10,7 +10,7 @@ int64_t now(void)
 {
   struct timespec timespec = { 0 };
 
-  int r = clock_gettime(CLOCK_REALTIME, &timespec);
+  int r = clock_gettime(CLOCK_MONOTONIC, &timespec);
   ASSERT_UNUSED(r == 0);
 
   return timespec.tv_sec * 1000 + timespec.tv_nsec / 1000000;
